@@ -195,6 +195,42 @@ def declared_pass(task):
                             msgs.append(f"{fam}({a}): objective at the declared optimum point {pt.tolist()} is {v2!r} after an "
                                         f"evaluation at {pr.tolist()}, it was {v!r} before (declared {val!r})")
                             break
+        # the same object after (1) one evaluation outside its box and (2) its generator re-targeted to another member and
+        # back (A, B, A) through the public SetFunctionNumber: the declared point still has the declared value
+        try:
+            pt, val = bench.declared(p)
+            lo_, up_ = bench.bounds(p)
+            v = bench.evaluator(p)(pt)
+            out_pt = np.array(pt, dtype=float)
+            out_pt[0] = up_[0] + 0.37 * (up_[0] - lo_[0])
+            try:
+                bench.evaluator(p)(out_pt)
+            except Exception:
+                pass
+            v2 = bench.evaluator(p)(pt)
+            evals += 3
+            if v2 != v:
+                msgs.append(f"{fam}({arg}): objective at the declared optimum point is {v2!r} after one evaluation outside the box "
+                            f"at {out_pt.tolist()}, it was {v!r} before (declared {val!r})")
+            gen = getattr(p, "function", None)
+            if gen is not None and hasattr(gen, "SetFunctionNumber") and fam in ("GKLS", "Grishagin"):
+                a_no = arg[1] if fam == "GKLS" else arg
+                b_no = a_no % 100 + 1
+                for seq_ in ((b_no, a_no), (a_no,), (b_no, b_no % 100 + 1, a_no)):
+                    for no in seq_:
+                        if fam == "GKLS":
+                            gen.SetFunctionNumber(no)
+                        else:
+                            gen.fn = no                 # the Grishagin generator is re-targeted through its number field
+                            gen.SetFunctionNumber()
+                    v3 = bench.evaluator(p)(pt)
+                    evals += 1
+                    if v3 != v:
+                        msgs.append(f"{fam}({arg}): after function.SetFunctionNumber{seq_} the objective at the declared optimum point "
+                                    f"is {v3!r}, it was {v!r} (declared {val!r})")
+                        break
+        except Exception as e:
+            msgs.append(f"{fam}({arg}): evaluation outside the box / re-targeting the generator raised {type(e).__name__}: {e}")
         prev = (p, arg)
         if len(msgs) > 4:
             break
